@@ -290,6 +290,41 @@ def cold_start(ntags, delays):
     return problems
 
 
+def setup_swaps_nothing():
+    """Every request re-runs the tag set-up (logix.setup: "always check").  Two tag names bound to one address: re-running the
+    set-up must not swap the Attribute object that serves the address - a write another session has acknowledged in between lands in
+    one object, reads are then served from the other.  -> problems"""
+    from cpppo.server.enip import logix, device, parser
+    from cpppo import dotdict
+    problems = []
+    device.lookup_reset(); logix.setup_reset()
+    tg = dotdict()
+    a = device.Attribute('A', parser.DINT, default=[0] * 4)
+    dict.__setitem__(tg, 'A', dotdict(attribute=a, error=0))
+    logix.setup(tags=tg)
+    addr = logix.resolve_tag('A') if hasattr(logix, 'resolve_tag') else device.resolve_tag('A')
+    b = device.Attribute('B', parser.DINT, default=[0] * 4)
+    dict.__setitem__(tg, 'B', dotdict(attribute=b, error=0, path={'segment': [{'class': addr[0]}, {'instance': addr[1]}, {'attribute': addr[2]}]}))
+    logix.setup(tags=tg)
+    inst = device.lookup(addr[0], addr[1])
+    swaps = []
+
+    class Rec(dict):
+        def __setitem__(self, k, v):
+            if k in self and dict.__getitem__(self, k) is not v:
+                swaps.append(k)
+            dict.__setitem__(self, k, v)
+    inst.attribute = Rec(inst.attribute)
+    serving = device.lookup(*addr)
+    for _ in range(3):
+        logix.setup(tags=tg)
+    if swaps or device.lookup(*addr) is not serving:
+        problems.append(dict(tags='A=DINT[4] and B@%d/%d/%d=DINT[4] (the address A was given)' % tuple(addr), swaps_of_attribute=swaps,
+                             problem='re-running the tag set-up (done for every request) replaces the Attribute object serving an address that two tag names share'))
+    device.lookup_reset(); logix.setup_reset()
+    return problems
+
+
 def same_port_peers(port):
     """Sessions from different client addresses that happen to use the SAME source port number are separate sessions: one ending
     (or being refused) must not end the other.  -> problems"""
@@ -421,6 +456,9 @@ def run(ctx):
     if not probs and mo[1:13] != final:
         ndis += 1
         first = first or dict(part='array under the schedule', impl=final, model=mo[1:13])
+    for pm in setup_swaps_nothing():
+        nbad += 1
+        ctx.violation(pm, pm['problem'])
     # ---- C
     stress_problems = stress(4 if not ctx.thorough else 6, 25 if not ctx.thorough else 120, 1e-5, ctx.seed + 1)
     for pm in stress_problems[:3]:
